@@ -175,6 +175,10 @@ variable {K : Type} [LE K] [LT K] [Add K] [Sub K] [Mul K] [Div K] [Neg K] [OfNat
     (((lo ≥ pi ∧ hi > pi) ∧ (t > lo - 2 * pi ∧ t < hi - 2 * pi)) ∨
      (¬ (lo ≥ pi ∧ hi > pi) ∧ (t > lo ∧ t < hi))))
 
+/-- a whole keystone segment mask, `arc & ang_mask` with the wrap-around branches -/
+@[reducible] def keySegment (pi rin rout lo hi r t : K) : Prop :=
+  ((r ≤ rin ∧ ¬ r ≤ rout) ∨ (¬ r ≤ rin ∧ r ≤ rout)) ∧ keyAng pi lo hi t
+
 end prims
 
 /-! ## first-claim ownership of samples (`local_mask &= ~mask[local_window]; mask[local_window] |= local_mask`) -/
